@@ -352,6 +352,44 @@ func genCases(seed uint64, n int) []Case {
 		}
 	}
 
+	// Byte-string fields above the incremental-read threshold (64 KiB), cut inside
+	// the field body at several depths: every such strict prefix must be an error
+	// (seeded change C13-e: the large-field path swallowed io.EOF).
+	for _, s := range schemas {
+		for bi, k := range s.kinds {
+			if k != "bytes" {
+				continue
+			}
+			for _, size := range []int{65536, 65537, 70000, 200000} {
+				fs := genFields(r, s, false)
+				fs[bi] = Field{K: "bytes", B: []Seg{{Rep: []int{1 + r.Intn(255), size}}}}
+				body := encodeBody(s, fs)
+				off := 0
+				for i, kk := range s.kinds[:bi] {
+					switch kk {
+					case "u64", "int":
+						off += 8
+					case "bytes":
+						off += 8 + len(segBytes(fs[i].B))
+					case "err":
+						off += 8
+						if !fs[i].Nil {
+							off += 8 + len(segBytes(fs[i].B))
+						}
+					}
+				}
+				for _, cut := range []int{off + 8 + 1, off + 8 + 65535, off + 8 + size/2, off + 8 + size - 1} {
+					if cut <= 0 || cut >= len(body) {
+						continue
+					}
+					for _, cp := range []int{0, size, size + 7} {
+						add(Case{Stream: "prefix", Op: "dec", Name: s.name, Cap: cp, End: true, Input: segsOf(body[:cut])})
+					}
+				}
+			}
+		}
+	}
+
 	for len(cs) < n {
 		s := schemas[r.Intn(len(schemas))]
 		big := r.Intn(12) == 0
